@@ -2408,6 +2408,14 @@ int32_t processFinished(ssl_t *ssl, flightEncode_t *msg)
         {
             /* Epoch is incremented and the sequence numbers are reset for
                this message */
+            if (ssl->largestEpoch[0] == 0xFF && ssl->largestEpoch[1] == 0xFF)
+            {
+                /* Every (re)transmission of this flight takes a new epoch.
+                   Never wrap: an (epoch, sequence number) pair must not be
+                   used twice under the same key. */
+                psTraceErrr("DTLS epoch space exhausted\n");
+                return MATRIXSSL_ERROR;
+            }
             incrTwoByte(ssl, ssl->epoch, 1);
             zeroSixByte(ssl->rsn);
         }
